@@ -589,7 +589,7 @@ func checkDiscipline(w *World, r *Report, la *LockAnalysis, filter func(sharedSt
 			if a.Kind != "atomic" {
 				allAtomic = false
 			}
-			if a.IsWrite() && !(a.Unit != nil && isAllocatingFunc(w, a.Unit.fi, named[ss.name])) {
+			if a.IsWrite() && !(a.Unit != nil && (isAllocatingFunc(w, a.Unit.fi, named[ss.name]) || constructionTimeUnit(w, a.Unit, named[ss.name]))) {
 				writesOnlyCtor = false
 			}
 			if a.Node != nil && !isFreshAccess(a) {
